@@ -182,6 +182,9 @@ def check(ctx):
     from .. import cwriters as W
     nw = W.check_writers(ctx, "R6", [W.RATES, W.ODE, W.FEX, W.JAC], W.RATE_ARRAYS, "the rate coefficients")
     ctx.floor("R6", "declarations of k/kh/kc met", nw, 12)
+    # occurrences count: no set / dict keyed by the species stands between a reactant list and the terms built from it
+    from ..multiplicity import rule as multiplicity_rule
+    multiplicity_rule(ctx, "R7", ['reaction'], "the rate coefficient")
 
 
 # ------------------------------------------------------------------ R1
